@@ -253,6 +253,16 @@ impl fmt::Display for PreferenceManager {
     }
 }
 
+/// The string form of a scalar preference value (the stored value need not be a YAML string: `MathRate: 100`)
+fn yaml_scalar_to_string(value: &Yaml) -> String {
+    return match value {
+        Yaml::String(s) | Yaml::Real(s) => s.clone(),
+        Yaml::Boolean(b) => b.to_string(),
+        Yaml::Integer(i) => i.to_string(),
+        _ => NO_PREFERENCE.to_string(),
+    };
+}
+
 impl PreferenceManager {
     /// Initialize (the) PreferenceManager (a global var).
     /// 'rules_dir' is the path to "Rules" unless the env var MathCATRulesDir is set
@@ -687,12 +697,18 @@ impl PreferenceManager {
         // don't do an update if the value hasn't changed
         let mut is_user_pref = true;
         if let Some(pref_value) = self.api_prefs.prefs.get(key) {
-            if pref_value.as_str().unwrap() != value {
+            if matches!(pref_value, Yaml::Boolean(_)) {
+                bail!("{} is a boolean preference: '{}' is neither 'true' nor 'false'", key, value);
+            }
+            if yaml_scalar_to_string(pref_value) != value {
                 is_user_pref = false;
                 self.reset_files_from_preference_change(key, value)?;
             }
         } else if let Some(pref_value) = self.user_prefs.prefs.get(key) {
-            if pref_value.as_str().unwrap() != value {
+            if matches!(pref_value, Yaml::Boolean(_)) {
+                bail!("{} is a boolean preference: '{}' is neither 'true' nor 'false'", key, value);
+            }
+            if yaml_scalar_to_string(pref_value) != value {
                 self.reset_files_from_preference_change(key, value)?;
             }
         } else {
@@ -755,6 +771,14 @@ impl PreferenceManager {
         };
 
         self.api_prefs.prefs.insert(key.to_string(), Yaml::Real(value.to_string()));
+    }
+
+    /// Returns true if `key` currently holds a boolean value; an unknown preference is an error.
+    pub fn is_boolean_pref(&self, key: &str) -> Result<bool> {
+        return match self.api_prefs.prefs.get(key).or_else(|| self.user_prefs.prefs.get(key)) {
+            None => bail!("{} is an unknown MathCAT preference!", key),
+            Some(value) => Ok( matches!(value, Yaml::Boolean(_)) ),
+        };
     }
 
     pub fn set_api_boolean_pref(&mut self, key: &str, value: bool) {
